@@ -333,6 +333,11 @@ func (x *Exec) applySpec(st *State, fs *FuncSpec, names []string, args []Val, si
 		env2.what = fmt.Sprintf("%s ensures (%s:%d)", fs.Name, shortFile(c.File), c.Line)
 		st.assume(env2.evalBool(c.Expr))
 	}
+	if fs.Kind == "method" && len(args) > 0 {
+		st.events = &evNode{ev: &extEvent{kind: "method", key: fs.Name, recv: args[0], res: res, sig: sig, post: st.snap()}, prev: st.events}
+	} else if strings.HasPrefix(cc.label, "role:") && cc.self != nil {
+		st.events = &evNode{ev: &extEvent{kind: "role", key: fs.Name, recv: *cc.self, res: res, sig: sig, post: st.snap()}, prev: st.events}
+	}
 	return res
 }
 
@@ -460,6 +465,9 @@ func (x *Exec) callFunction(st *State, f *ssa.Function, bindings []Val, args []V
 	if !inPkg && (strings.HasPrefix(f.String(), "(*sync.Mutex).") || strings.HasPrefix(f.String(), "(*sync.RWMutex).")) && len(args) == 1 && x.curCall != nil && len(x.curCall.Args) == 1 {
 		x.lockOp(st, f.String(), x.curCall.Args[0], args[0].L[0], pos)
 	}
+	if !inPkg && f.String() == "(*sync.Once).Do" && len(args) == 2 {
+		return x.onceDo(st, args[0], args[1], pos, k)
+	}
 	if !inPkg && f.String() == "fmt.Sprintf" && x.curCall != nil {
 		if t, ok := x.sprintf(st, x.curCall, args, pos); ok {
 			x.usedSpecs["builtin fmt.Sprintf(%v)"] = true
@@ -494,6 +502,46 @@ func (x *Exec) callFunction(st *State, f *ssa.Function, bindings []Val, args []V
 		return false, Val{}
 	}
 	return true, x.unknownCall(st, name, f.Signature, pos)
+}
+
+// onceDo gives sync.Once.Do its meaning: on a Once that has already fired nothing
+// happens; otherwise it is marked fired and the function is called (against its
+// contract, or inlined when it is a wrapper). Both cases are explored.
+func (x *Exec) onceDo(st *State, o Val, fv Val, pos token.Pos, k func(*State, Val)) (bool, Val) {
+	x.usedSpecs["builtin (*sync.Once).Do"] = true
+	unit := Val{T: types.NewTuple()}
+	x.oblige(st, "nilderef", "once", tNot(tIsNil(o.L[0])), x.spec.Props, "Do on a nil *sync.Once", pos)
+	st.assume(tNot(tIsNil(o.L[0])))
+	idx := -1
+	for _, g := range x.prog.spec.Ghosts["sync.Once"] {
+		if g.Name == "fired" {
+			idx = g.Index
+		}
+	}
+	if idx < 0 {
+		panic(specErr{"sync.Once needs the ghost field `fired`"})
+	}
+	addr := extendGhost(o.L[0], idx)
+	fired := st.loadIn(nil, "Bool", addr)
+	if k != nil {
+		s2 := st.fork()
+		s2.assume(fired)
+		s2.trace = append(s2.trace, "once:fired")
+		k(s2, unit)
+	} else {
+		// no continuation available (deferred call): only the first-call case is followed
+		x.notes = append(x.notes, "sync.Once.Do in a deferred call: the already-fired case is not explored")
+	}
+	st.assume(tNot(fired))
+	st.trace = append(st.trace, "once:first")
+	x.oblige(st, "frame", "(*sync.Once).Do", x.writable(addr, "Bool"), x.spec.Props, "the Once marked fired is allowed by the modifies clause", pos)
+	st.storeLeaf("Bool", addr, "true")
+	x.oblige(st, "nilcall", "once function", tNot(tIsNil(fv.L[0])), x.spec.Props, "call of nil function value", pos)
+	st.assume(tNot(tIsNil(fv.L[0])))
+	if ci, ok := st.closures[fv.L[0]]; ok {
+		return x.callFunction(st, ci.fn, ci.bindings, nil, pos, k)
+	}
+	return true, x.unknownCall(st, "function passed to sync.Once.Do", types.NewSignatureType(nil, nil, nil, nil, nil, false), pos)
 }
 
 func (x *Exec) inline(st *State, f *ssa.Function, bindings []Val, args []Val, k func(*State, Val)) {
